@@ -1,10 +1,10 @@
 import J5V.Compile.ConvertProofs
 /-!
-# The schema-level conversion never panics outside the recorded arms (core only)
+# The schema-level conversion never panics (core only)
 
-`PanicFree` is the decidable predicate on source fields that excludes exactly the arms where the
-Go code panics today (date / decimal rules: `proto.SetExtension` with the wrong Go type).
-`WfCtx` says the resolver only hands out file names `ensureImport` accepts.
+`WfCtx` says the resolver only hands out file names `ensureImport` accepts (non-empty, containing
+`/`) — true of every `TypeRef` the package loader builds. Under it, `buildFieldNode`,
+`buildField`, `buildProperty` and the property loop reach no panic arm, for any property list.
 -/
 namespace J5V.Compile
 
@@ -15,23 +15,6 @@ theorem Eff.imp_panic (p : Str) : (Eff.imp p).panic = badImport p := rfl
 
 /-- every file name the resolver returns is acceptable to `ensureImport` -/
 def WfCtx (c : Ctx) : Prop := ∀ pkg s t, c.resolve pkg s = some t → badImport t.file = false
-
-mutual
-/-- no date / decimal rules anywhere below (the arms that panic today) -/
-def PanicFree : Field → Bool
-  | .date rules _ => rules.isEmpty
-  | .decimal rules _ => rules.isEmpty
-  | .objectInl _ props _ _ => PanicFreeProps props
-  | .oneofInl _ props _ _ => PanicFreeProps props
-  | .array items _ => PanicFree items
-  | .map items _ => PanicFree items
-  | _ => true
-def PanicFreeProp : Property → Bool
-  | .mk _ _ _ f => PanicFree f
-def PanicFreeProps : List Property → Bool
-  | [] => true
-  | p :: ps => PanicFreeProp p && PanicFreeProps ps
-end
 
 @[simp] theorem bad_j5Ext : badImport j5ExtImport = false := by decide
 @[simp] theorem bad_bufValidate : badImport bufValidateImport = false := by decide
@@ -50,8 +33,6 @@ end
   cases b <;> simp [when]
 @[simp] theorem listRulesEff_panic (lr : Bool) : (listRulesEff lr).panic = false := by
   simp [listRulesEff, Eff.imp_panic]
-@[simp] theorem validateNoImport_panic (b : Bool) : (validateNoImport b).panic = false := by
-  simp [validateNoImport]
 @[simp] theorem validateWithImport_panic (b : Bool) : (validateWithImport b).panic = false := by
   simp [validateWithImport, Eff.imp_panic]
 
@@ -82,15 +63,9 @@ theorem enumFieldWith_panic (pre walk : Eff) (tn pfx : Str) (names : List Str) (
   unfold enumFieldWith
   split <;> simp [h1, h2]
 
-theorem scalarField_panic (f : Field) (hf : PanicFree f = true) (b : BF)
+theorem scalarField_panic (f : Field) (b : BF)
     (h : scalarField f = some b) : b.eff.panic = false ∧ b.walk.panic = false := by
   cases f <;> simp only [scalarField, Option.some.injEq, reduceCtorEq] at h
-  case date rules lr =>
-    simp only [PanicFree] at hf
-    subst h; simp [Eff.imp_panic, hf, Eff.panicked]
-  case decimal rules lr =>
-    simp only [PanicFree] at hf
-    subst h; simp [Eff.imp_panic, hf, Eff.panicked]
   case integer fmt rules lr =>
     split at h <;> (simp only [Option.some.injEq] at h; subst h; simp)
   case float fmt rules lr =>
@@ -128,11 +103,11 @@ theorem bProperty_panic (c : Ctx) (np : List Str) (io : Bool) (n : Nat) (name : 
 
 mutual
 theorem bField_no_panic (c : Ctx) (hc : WfCtx c) (np : List Str) (d : Str) :
-    ∀ f : Field, PanicFree f = true →
+    ∀ f : Field,
       (bField c np d f).eff.panic = false ∧ (bField c np d f).walk.panic = false
-  | .objectRef pkg schema fl rules, _ => by rw [bField]; exact msgRefField_panic c hc _ _ _ _ _
-  | .oneofRef pkg schema rules lr, _ => by rw [bField]; exact msgRefField_panic c hc _ _ _ _ _
-  | .enumRef pkg schema rules lr, _ => by
+  | .objectRef pkg schema fl rules => by rw [bField]; exact msgRefField_panic c hc _ _ _ _ _
+  | .oneofRef pkg schema rules lr => by rw [bField]; exact msgRefField_panic c hc _ _ _ _ _
+  | .enumRef pkg schema rules lr => by
     rw [bField]
     have := refField_panic c hc pkg schema true
     cases h : refField c pkg schema true with
@@ -145,90 +120,108 @@ theorem bField_no_panic (c : Ctx) (hc : WfCtx c) (np : List Str) (d : Str) :
         cases t.kind with
         | enum pfx names => exact enumFieldWith_panic _ _ _ _ _ _ _ this rfl
         | message o => simp_all
-  | .objectInl name props fl rules, hf => by
+  | .objectInl name props fl rules => by
     rw [bField]
     have ih := bProps_no_panic c hc (np ++ [if name = [] then d else name]) false 1 props
-      (by simpa [PanicFree] using hf)
     simp [msgInlField, ih]
-  | .oneofInl name props rules lr, hf => by
+  | .oneofInl name props rules lr => by
     rw [bField]
     have ih := bProps_no_panic c hc (np ++ [if name = [] then d else name]) true 1 props
-      (by simpa [PanicFree] using hf)
     simp [msgInlField, ih]
-  | .enumInl e rules lr, _ => by
+  | .enumInl e rules lr => by
     rw [bField]
     simp only [enumTKind]
     exact enumFieldWith_panic _ _ _ _ _ _ _ rfl rfl
-  | .array items rules, hf => by
+  | .array items rules => by
     rw [bField]
-    have ih := bField_no_panic c hc np d items (by simpa [PanicFree] using hf)
+    have ih := bField_no_panic c hc np d items
     simp [ih]
-  | .map items rules, hf => by
+  | .map items rules => by
     rw [bField]
-    have ih := bField_no_panic c hc np d items (by simpa [PanicFree] using hf)
+    have ih := bField_no_panic c hc np d items
     simp [ih]
-  | .string rules lr, hf => by
-    rw [bField_scalar c np d _ _ rfl]; exact scalarField_panic _ hf _ rfl
-  | .bool rules lr, hf => by
-    rw [bField_scalar c np d _ _ rfl]; exact scalarField_panic _ hf _ rfl
-  | .bytes rules, hf => by
-    rw [bField_scalar c np d _ _ rfl]; exact scalarField_panic _ hf _ rfl
-  | .date rules lr, hf => by
-    rw [bField_scalar c np d _ _ rfl]; exact scalarField_panic _ hf _ rfl
-  | .decimal rules lr, hf => by
-    rw [bField_scalar c np d _ _ rfl]; exact scalarField_panic _ hf _ rfl
-  | .timestamp rules, hf => by
-    rw [bField_scalar c np d _ _ rfl]; exact scalarField_panic _ hf _ rfl
-  | .any, hf => by
-    rw [bField_scalar c np d _ _ rfl]; exact scalarField_panic _ hf _ rfl
-  | .integer fmt rules lr, hf => by
+  | .string rules lr => by
+    rw [bField_scalar c np d (.string rules lr) _ rfl]; exact scalarField_panic (.string rules lr) _ rfl
+  | .bool rules lr => by
+    rw [bField_scalar c np d (.bool rules lr) _ rfl]; exact scalarField_panic (.bool rules lr) _ rfl
+  | .bytes rules => by
+    rw [bField_scalar c np d (.bytes rules) _ rfl]; exact scalarField_panic (.bytes rules) _ rfl
+  | .date rules lr => by
+    rw [bField_scalar c np d (.date rules lr) _ rfl]; exact scalarField_panic (.date rules lr) _ rfl
+  | .decimal rules lr => by
+    rw [bField_scalar c np d (.decimal rules lr) _ rfl]; exact scalarField_panic (.decimal rules lr) _ rfl
+  | .timestamp rules => by
+    rw [bField_scalar c np d (.timestamp rules) _ rfl]; exact scalarField_panic (.timestamp rules) _ rfl
+  | .any => by
+    rw [bField_scalar c np d (.any) _ rfl]; exact scalarField_panic (.any) _ rfl
+  | .integer fmt rules lr => by
     cases h : scalarField (.integer fmt rules lr) with
     | none => simp only [scalarField] at h; split at h <;> simp at h
-    | some b => rw [bField_scalar c np d _ b h]; exact scalarField_panic _ hf b h
-  | .float fmt rules lr, hf => by
+    | some b => rw [bField_scalar c np d _ b h]; exact scalarField_panic _ b h
+  | .float fmt rules lr => by
     cases h : scalarField (.float fmt rules lr) with
     | none => simp only [scalarField] at h; split at h <;> simp at h
-    | some b => rw [bField_scalar c np d _ b h]; exact scalarField_panic _ hf b h
-  | .key fmt ek rules lr, hf => by
-    rw [bField_scalar c np d _ _ rfl]; exact scalarField_panic _ hf _ rfl
+    | some b => rw [bField_scalar c np d _ b h]; exact scalarField_panic _ b h
+  | .key fmt ek rules lr => by
+    rw [bField_scalar c np d (.key fmt ek rules lr) _ rfl]; exact scalarField_panic (.key fmt ek rules lr) _ rfl
 
 theorem bProperty_no_panic (c : Ctx) (hc : WfCtx c) (np : List Str) (io : Bool) (n : Nat) :
-    ∀ p : Property, PanicFreeProp p = true → (bProperty c np io n p).eff.panic = false
-  | .mk name req opt schema, hp => by
-    have hf : PanicFree schema = true := by simpa [PanicFreeProp] using hp
+    ∀ p : Property, (bProperty c np io n p).eff.panic = false
+  | .mk name req opt schema => by
     rw [bProperty_panic]
-    have hb : PanicFree (builtField schema) = true := by
-      cases schema <;> simpa [builtField, PanicFree] using hf
     cases schema with
-    | map items rules => exact (bField_no_panic c hc np (toCamel name) items hb).1
-    | array items rules => exact (bField_no_panic c hc np (toCamel name) items hb).1
-    | string rules lr => exact (bField_no_panic c hc np (toCamel name) _ hf).1
-    | bool rules lr => exact (bField_no_panic c hc np (toCamel name) _ hf).1
-    | bytes rules => exact (bField_no_panic c hc np (toCamel name) _ hf).1
-    | date rules lr => exact (bField_no_panic c hc np (toCamel name) _ hf).1
-    | decimal rules lr => exact (bField_no_panic c hc np (toCamel name) _ hf).1
-    | timestamp rules => exact (bField_no_panic c hc np (toCamel name) _ hf).1
-    | any => exact (bField_no_panic c hc np (toCamel name) _ hf).1
-    | integer fmt rules lr => exact (bField_no_panic c hc np (toCamel name) _ hf).1
-    | float fmt rules lr => exact (bField_no_panic c hc np (toCamel name) _ hf).1
-    | key fmt ek rules lr => exact (bField_no_panic c hc np (toCamel name) _ hf).1
-    | objectRef pkg sc fl rules => exact (bField_no_panic c hc np (toCamel name) _ hf).1
-    | objectInl nm props fl rules => exact (bField_no_panic c hc np (toCamel name) _ hf).1
-    | oneofRef pkg sc rules lr => exact (bField_no_panic c hc np (toCamel name) _ hf).1
-    | oneofInl nm props rules lr => exact (bField_no_panic c hc np (toCamel name) _ hf).1
-    | enumRef pkg sc rules lr => exact (bField_no_panic c hc np (toCamel name) _ hf).1
-    | enumInl e rules lr => exact (bField_no_panic c hc np (toCamel name) _ hf).1
+    | map items rules => exact (bField_no_panic c hc np (toCamel name) items).1
+    | array items rules => exact (bField_no_panic c hc np (toCamel name) items).1
+    | string rules lr => exact (bField_no_panic c hc np (toCamel name) _).1
+    | bool rules lr => exact (bField_no_panic c hc np (toCamel name) _).1
+    | bytes rules => exact (bField_no_panic c hc np (toCamel name) _).1
+    | date rules lr => exact (bField_no_panic c hc np (toCamel name) _).1
+    | decimal rules lr => exact (bField_no_panic c hc np (toCamel name) _).1
+    | timestamp rules => exact (bField_no_panic c hc np (toCamel name) _).1
+    | any => exact (bField_no_panic c hc np (toCamel name) _).1
+    | integer fmt rules lr => exact (bField_no_panic c hc np (toCamel name) _).1
+    | float fmt rules lr => exact (bField_no_panic c hc np (toCamel name) _).1
+    | key fmt ek rules lr => exact (bField_no_panic c hc np (toCamel name) _).1
+    | objectRef pkg sc fl rules => exact (bField_no_panic c hc np (toCamel name) _).1
+    | objectInl nm props fl rules => exact (bField_no_panic c hc np (toCamel name) _).1
+    | oneofRef pkg sc rules lr => exact (bField_no_panic c hc np (toCamel name) _).1
+    | oneofInl nm props rules lr => exact (bField_no_panic c hc np (toCamel name) _).1
+    | enumRef pkg sc rules lr => exact (bField_no_panic c hc np (toCamel name) _).1
+    | enumInl e rules lr => exact (bField_no_panic c hc np (toCamel name) _).1
 
 theorem bProps_no_panic (c : Ctx) (hc : WfCtx c) (np : List Str) (io : Bool) (n : Nat) :
-    ∀ ps : List Property, PanicFreeProps ps = true → (bProps c np io n ps).eff.panic = false
-  | [], _ => by simp [bProps_nil]
-  | p :: ps, h => by
-    have h1 : PanicFreeProp p = true ∧ PanicFreeProps ps = true := by
-      simpa [PanicFreeProps] using h
-    have a := bProperty_no_panic c hc np io n p h1.1
-    have b := bProps_no_panic c hc np io (n + 1) ps h1.2
+    ∀ ps : List Property, (bProps c np io n ps).eff.panic = false
+  | [] => by simp [bProps_nil]
+  | p :: ps => by
+    have a := bProperty_no_panic c hc np io n p
+    have b := bProps_no_panic c hc np io (n + 1) ps
     rw [bProps_cons]
     cases io <;> simp [a, b]
 end
+
+theorem lookup_mem {β : Type} (l : List (Str × β)) (k : Str) (v : β) (h : l.lookup k = some v) :
+    (k, v) ∈ l := by
+  induction l with
+  | nil => simp at h
+  | cons x xs ih =>
+    obtain ⟨a, b⟩ := x
+    simp only [List.lookup_cons] at h
+    by_cases hk : k = a
+    · subst hk; simp at h; subst h; simp
+    · have : (k == a) = false := by simpa using hk
+      rw [this] at h
+      exact List.mem_cons_of_mem _ (ih h)
+
+/-- every implicit import names a well-formed file -/
+theorem implicitRef_wf (p sch : Str) (t : TypeRef) (h : implicitRef p sch = some t) :
+    badImport t.file = false := by
+  unfold implicitRef at h
+  cases hl : implicitImports.lookup p with
+  | none => simp [hl] at h
+  | some ex =>
+    rw [hl] at h
+    have hmem := List.mem_of_find?_eq_some h
+    have hall : ∀ pr ∈ implicitImports, ∀ x ∈ pr.2, badImport x.file = false := by decide
+    exact hall (p, ex) (lookup_mem _ _ _ hl) t hmem
 
 end J5V.Compile
